@@ -307,13 +307,17 @@ func registerListeners[E boltz.Entity](r *Run, name string, store boltz.EntitySt
 			r.recordEvent("L14", name, typ, e)
 		}, async)
 	}
+	// the optional change types of L4 and L7 come from one caller-owned slice with spare capacity, the way an
+	// application builds its registrations in a loop: the library must copy, not alias, what it is given
+	shared := make([]boltz.EntityEventType, 2, 4)
+	shared[0], shared[1] = boltz.EntityUpdated, boltz.EntityDeleted
 	store.AddEntityIdListener(func(id string) {
 		r.recordIdEvent("L4", name, EvDelete, id)
-	}, boltz.EntityDeleted)
+	}, boltz.EntityDeleted, shared[:0]...)
 	// one registration call naming several change types, in every style
 	store.AddEntityIdListener(func(id string) {
 		r.recordIdEvent("L7", name, "*", id)
-	}, boltz.EntityCreated, boltz.EntityUpdated, boltz.EntityDeleted)
+	}, boltz.EntityCreated, shared...)
 	store.AddListener(func(e boltz.Entity) {
 		r.recordEvent("L8", name, "*", e)
 	}, boltz.EntityDeleted, boltz.EntityCreated, boltz.EntityUpdated)
